@@ -31,10 +31,11 @@ Match(O, cbs) ==
   /\ Len(cbs) = Cardinality(O)
   /\ \A i \in 1..Len(cbs) : \A j \in 1..Len(cbs) : i # j => cbs[i].k # cbs[j].k
   /\ \A i \in 1..Len(cbs) : \E o \in O : o.k = cbs[i].k /\ o.st = cbs[i].st /\ (o.res.any \/ ResEq(cbs[i], o.res))
-Post == /\ Match(out', Ev.cbs)
-        /\ Ev.chk => ToSet(Ev.run) = {idOf'[k] : k \in DOMAIN reqs'}
-NothingReported == \A i \in 1..Len(Ev.cbs) : Ev.cbs[i].na = 0 /\ Ev.cbs[i].nc = 0
-Encoded(d) == \A i \in 1..Len(Ev.cbs) : LET c == Ev.cbs[i] IN
+\* (P = TRUE makes TLC evaluate P as a value instead of enumerating the witnesses of its quantifiers as successor states)
+Post == /\ Match(out', Ev.cbs) = TRUE
+        /\ (Ev.chk => ToSet(Ev.run) = {idOf'[k] : k \in DOMAIN reqs'}) = TRUE
+NothingReported == TRUE = \A i \in 1..Len(Ev.cbs) : Ev.cbs[i].na = 0 /\ Ev.cbs[i].nc = 0
+Encoded(d) == TRUE = \A i \in 1..Len(Ev.cbs) : LET c == Ev.cbs[i] IN
                  /\ OnlyEncoded(d, c.a, c.cn)
                  /\ c.na + c.nc <= MaxReportable(d)
 
@@ -56,7 +57,7 @@ TReply == /\ IsEv("Reply")
                  c == Classify(d, IF k = 0 THEN <<>> ELSE qn[k])
              IN Reply(Ev.s, k, c.cls, Exact(c.res)) /\ Encoded(d)
           /\ UNCHANGED <<idOf, qn>> /\ Post
-TTick == IsEv("Tick") /\ Tick /\ UNCHANGED <<idOf, qn>> /\ Post /\ NothingReported
+TTick == IsEv("Tick") /\ TickOf({Ev.cbs[i].k : i \in 1..Len(Ev.cbs)} \cap Pending) /\ UNCHANGED <<idOf, qn>> /\ Post /\ NothingReported
 TSkip == IsEv("Skip") /\ UNCHANGED <<vars, idOf, qn>>
 \* end of an execution (after the driver let up to 40 more ticks go by): no lookup is left pending
 TEnd == IsEv("End") /\ Pending = {} /\ Len(Ev.run) = 0 /\ UNCHANGED <<vars, idOf, qn>>
